@@ -827,6 +827,21 @@ func (vc *VC) ghostComp(name string) (string, bool) {
 		if strings.Contains(st, "Bytes") {
 			vc.needBytes = true
 		}
+		// {T} stands for the SMT sort of the Go type T in the integer mode of the function being verified
+		for strings.Contains(st, "{") {
+			i := strings.Index(st, "{")
+			j := strings.Index(st[i:], "}")
+			if j < 0 {
+				break
+			}
+			tn := st[i+1 : i+j]
+			srt, _ := vc.specTypeSort(tn, vc.P.GhostPkg[name])
+			if srt == nil {
+				vc.errorf("ghost %s: unknown type %s", name, tn)
+				break
+			}
+			st = st[:i] + srt.Name + st[i+j+1:]
+		}
 		vc.compSort[comp] = parseSortText(st)
 	}
 	return comp, true
